@@ -102,7 +102,7 @@ UNIT = {
                       ("X14", r"import_end: bool,[^\n]*\n\s*pub program_directory: Option<PathBuf>,", "", 1, "S"),
                       ("X14", r"_marker: PhantomData<R>,", "_marker: PhantomData<&'a R>,", 1)]},
         {"kind": "impl", "file": I, "impl": r"^impl<'a, R: RealNumberInternalTrait> Interpreter<'a, R>$",
-         "methods": {"eval_import": {"props": ["C12"],
+         "methods": {"eval_import": {"props": ["C12", "C07"],
              "attrs": "#[verifier::loop_isolation(false)]",
              "bind": {"DEFS": (r"let mut (\w+) = HashMap::new\(\);", "definitions")},
              "sig_rewrites": [("S1", r"\) -> Result<\(\)>$", ") -> (r: Result<()>)", 1, "S")],
